@@ -413,12 +413,214 @@ fn execute(prog: Program) -> Outcome {
     out
 }
 
+// ------------------------------------------------------------------------------------------------
+// scenario `fresh-join`: a node that has never run joins a primary whose history stays clear of the
+// recorded findings (no removes, values whose first word is a number or that are single words, the
+// joiner has no oplog of its own to replay); judged at the level of databases and key sets only
+// ------------------------------------------------------------------------------------------------
+
+#[derive(Clone, Debug, Serialize, Deserialize, PartialEq)]
+pub enum FOp {
+    Set { db: usize, key: String, val: String },
+    Inc { db: usize, key: String, by: i32 },
+    CreateUser { db: usize, user: String },
+    SetPermissions { db: usize, user: String, perms: String },
+}
+
+#[derive(Clone, Debug, Serialize, Deserialize)]
+pub struct Fresh {
+    pub strategies: Vec<String>,
+    pub ops: Vec<FOp>,
+    /// Some(dbs): these databases are snapshotted, then the primary is killed and restarted before
+    /// the new node joins (its oplog starts empty again; databases never snapshotted are gone)
+    pub primary_restart: Option<Vec<usize>>,
+    /// writes of new keys on the primary while the node synchronises
+    pub during: Vec<FOp>,
+}
+
+fn gen_fresh(rng: &mut Rng) -> Fresh {
+    let ndbs = rng.range(1, 3) as usize;
+    let strategies: Vec<String> = (0..ndbs).map(|_| ["none", "newer", "arbiter"][rng.below(3) as usize].to_string()).collect();
+    let n = rng.range(1, 8) as usize;
+    let mut uniq = 0;
+    let mut one = |rng: &mut Rng, prefix: &str| -> FOp {
+        let db = rng.below(ndbs as u64) as usize;
+        uniq += 1;
+        match rng.below(8) {
+            0..=3 => FOp::Set { db, key: format!("{}{}", prefix, rng.range(1, 4)), val: if rng.chance(1, 2) { format!("{} word{}", rng.range(1, 9), uniq) } else { format!("w{}", uniq) } },
+            4 => FOp::Inc { db, key: "n".into(), by: rng.range(1, 5) as i32 },
+            5 | 6 => FOp::CreateUser { db, user: format!("u{}", rng.range(1, 2)) },
+            _ => FOp::SetPermissions { db, user: format!("u{}", rng.range(1, 2)), perms: ["r *", "rw k*"][rng.below(2) as usize].to_string() },
+        }
+    };
+    let ops: Vec<FOp> = (0..n).map(|_| one(rng, "k")).collect();
+    let primary_restart = if rng.chance(1, 3) { Some((0..ndbs).filter(|_| rng.chance(2, 3)).collect()) } else { None };
+    let nd = rng.range(0, 2) as usize;
+    // (no increment while the node joins: one accepted while the join election runs is a recorded finding)
+    let during: Vec<FOp> = (0..nd).map(|_| one(rng, "late")).filter(|o| !matches!(o, FOp::Inc { .. })).collect();
+    Fresh { strategies, ops, primary_restart, during }
+}
+
+fn apply_fresh(s: &mut Session, cur: &mut Option<usize>, op: &FOp) {
+    let db = match op {
+        FOp::Set { db, .. } | FOp::Inc { db, .. } | FOp::CreateUser { db, .. } | FOp::SetPermissions { db, .. } => *db,
+    };
+    if *cur != Some(db) {
+        s.exec(&format!("use-db {} tok{}", DBN[db], db));
+        *cur = Some(db);
+    }
+    match op {
+        FOp::Set { key, val, .. } => s.exec(&format!("set {} {}", key, val)),
+        FOp::Inc { key, by, .. } => s.exec(&format!("increment {} {}", key, by)),
+        FOp::CreateUser { user, .. } => s.exec(&format!("create-user {} pw{}", user, user)),
+        FOp::SetPermissions { user, perms, .. } => s.exec(&format!("set-permissions {} {}", user, perms)),
+    };
+}
+
+fn key_class(k: &str) -> &'static str {
+    if k.starts_with("$$user") {
+        "user"
+    } else if k.starts_with("$$permission") {
+        "permission"
+    } else if k.starts_with("$$") {
+        "secure"
+    } else if k == "n" {
+        "counter"
+    } else if k.starts_with("late") {
+        "written-during-sync"
+    } else {
+        "plain"
+    }
+}
+
+fn execute_fresh(prog: Fresh) -> Outcome {
+    let mut out = Outcome { setup: Err("boot".into()), violations: vec![], full_sync: true, compared_keys: 0 };
+    let w = World::new(2);
+    let addrs = w.all_tcp();
+    w.boot(0, &addrs);
+    if !w.wait_primary(0, 5_000) {
+        out.setup = Err("setup_unstable".into());
+        return out;
+    }
+    let mut d0 = match w.dbs(0) {
+        Some(d) => d,
+        None => return out,
+    };
+    let mut admin = Session::admin(&d0);
+    for (i, st) in prog.strategies.iter().enumerate() {
+        if admin.exec(&format!("create-db {} tok{} {}", DBN[i], i, st)).resp.is_err() {
+            return out;
+        }
+    }
+    let mut cur = None;
+    for op in prog.ops.iter() {
+        apply_fresh(&mut admin, &mut cur, op);
+    }
+    if let Some(snap) = prog.primary_restart.as_ref() {
+        for db in snap.iter() {
+            admin.exec(&format!("use-db {} tok{}", DBN[*db], db));
+            admin.exec("snapshot false");
+        }
+        if !snap.is_empty() && !w.declutter_tick(0, 10_000) {
+            out.setup = Err("setup_unstable".into());
+            return out;
+        }
+        sleep_ms(5);
+        with(|k| k.fault("primary_restart"));
+        w.kill(0);
+        w.boot(0, &addrs);
+        if !w.wait_primary(0, 8_000) {
+            out.setup = Err("setup_unstable".into());
+            return out;
+        }
+        d0 = match w.dbs(0) {
+            Some(d) => d,
+            None => return out,
+        };
+        sleep_ms(100);
+    }
+    out.setup = Ok(());
+    // the new node
+    w.boot(1, &addrs);
+    let during = prog.during.clone();
+    let d0c = d0.clone();
+    let existing: Vec<String> = dump_node(&d0).keys().cloned().collect();
+    let h = spawn_on_node(&w, 0, "writer-during-sync", move || {
+        let mut s = Session::admin(&d0c);
+        let mut cur = None;
+        for op in during.iter() {
+            sleep_ms(300);
+            // only databases that still exist (a restarted primary lost the ones never snapshotted)
+            let db = match op {
+                FOp::Set { db, .. } | FOp::Inc { db, .. } | FOp::CreateUser { db, .. } | FOp::SetPermissions { db, .. } => *db,
+            };
+            if existing.iter().any(|n| n == DBN[db]) {
+                apply_fresh(&mut s, &mut cur, op);
+            }
+        }
+    });
+    let _ = h.join();
+    let joined = wait_cond(15_000, 50, || w.agreed_primary() == Ok(0));
+    if !joined || !w.settle(400, 8_000) {
+        let panics = with(|k| k.panics.clone());
+        if let Some(p) = panics.last() {
+            out.violations.push(Violation::new("sync-crashed", format!("fresh-join:{}", p.location.rsplit('/').next().unwrap_or("?")), format!("{} at {} (node {:?})", p.message, p.location, p.node)));
+            return out;
+        }
+        out.setup = Err("setup_unstable".into());
+        return out;
+    }
+    let d1 = match w.dbs(1) {
+        Some(d) => d,
+        None => return out,
+    };
+    let pd = dump_node(&d0);
+    let od = dump_node(&d1);
+    let restarted = if prog.primary_restart.is_some() { "primary-restarted" } else { "primary-up" };
+    for (db, (_, keys)) in pd.iter() {
+        if db == "$admin" {
+            continue;
+        }
+        let okeys = match od.get(db) {
+            Some(x) => &x.1,
+            None => {
+                out.violations.push(Violation::new("fresh-join-missing-database", restarted.to_string(), format!("database {} of the primary does not exist on the node that joined with an empty disk", db)));
+                continue;
+            }
+        };
+        let mut all: Vec<&String> = keys.keys().chain(okeys.keys()).collect();
+        all.sort();
+        all.dedup();
+        for k in all {
+            if k == "$connections" || k.starts_with("$conflicts") {
+                continue;
+            }
+            out.compared_keys += 1;
+            let a = keys.get(k).filter(|e| !e.deleted).is_some();
+            let b = okeys.get(k).filter(|e| !e.deleted).is_some();
+            if a && !b {
+                out.violations.push(Violation::new("fresh-join-missing-key", format!("{}:{}", restarted, key_class(k)), format!("{}/{} exists on the primary, absent on the node that joined with an empty disk", db, k)));
+            } else if !a && b {
+                out.violations.push(Violation::new("fresh-join-extra-key", format!("{}:{}", restarted, key_class(k)), format!("{}/{} exists only on the node that joined", db, k)));
+            }
+        }
+    }
+    for db in od.keys() {
+        if db != "$admin" && !pd.contains_key(db) {
+            out.violations.push(Violation::new("fresh-join-extra-database", restarted.to_string(), format!("database {} exists only on the node that joined", db)));
+        }
+    }
+    let mut seen = std::collections::BTreeSet::new();
+    out.violations.retain(|v| seen.insert(v.sig()));
+    out
+}
+
 impl Property for C05 {
     fn id(&self) -> &'static str {
         "C05"
     }
     fn scenarios(&self) -> Vec<(&'static str, u32)> {
-        vec![("join", 1)]
+        vec![("join", 3), ("fresh-join", 1)]
     }
     fn budget(&self) -> (u64, u64) {
         (4_000, 150_000)
@@ -436,6 +638,41 @@ impl Property for C05 {
     }
     fn run_one(&self, scenario: &str, ctx: &RunCtx) -> RunReport {
         let mut rng = Rng::new(ctx.seed);
+        if scenario == "fresh-join" {
+            let prog: Fresh = match &ctx.program {
+                Some(p) => serde_json::from_value(p.clone()).expect("program"),
+                None => gen_fresh(&mut rng),
+            };
+            let mut cfg = SimConfig::new(ctx.seed ^ 0xc05);
+            cfg.policy = policy_for(Rng::new(ctx.seed ^ 0x9011c7).next_u64());
+            cfg.trace = ctx.trace;
+            cfg.max_steps = 8_000_000;
+            let p2 = prog.clone();
+            let outcome = run_sim(cfg, move || execute_fresh(p2));
+            clear_registry();
+            let mut rep = RunReport { seed: ctx.seed, scenario: scenario.to_string(), ..Default::default() };
+            rep.program = serde_json::to_value(&prog).unwrap();
+            rep.absorb_kernel(&outcome.kernel);
+            let switch_hash = outcome.kernel.switch_hash;
+            if let Some(p) = outcome.harness_panic {
+                rep.harness_error = Some(p);
+                return rep;
+            }
+            match outcome.result {
+                Some(o) => match o.setup {
+                    Ok(()) => {
+                        rep.violations.extend(o.violations);
+                        rep.nontrivial = o.compared_keys > 0;
+                        rep.counters.insert("fresh_joins".into(), 1);
+                        rep.counters.insert("keys_compared".into(), o.compared_keys);
+                    }
+                    Err(e) => rep.discarded = Some(e),
+                },
+                None => rep.discarded = Some("truncated".into()),
+            }
+            rep.case_hash = kernel::mix(hash_str(&rep.program.to_string()), switch_hash);
+            return rep;
+        }
         let prog: Program = match &ctx.program {
             Some(p) => serde_json::from_value(p.clone()).expect("program"),
             None => gen(&mut rng),
